@@ -185,7 +185,7 @@ def streams(ctx):
             def chk(out, got=got, v=v, site=c["site"]):
                 want = out
                 if site == "npmalias":
-                    if v.startswith("catalog:"):
+                    if v.startswith(("catalog:", "workspace:", "file:", "link:", "git+", "git:", "git@", "github:", "http:", "https:")):
                         want = "N"
                     elif out == "N":
                         want = "P" + vlib.hx("k") + "|" + vlib.hx(v)
